@@ -1034,6 +1034,7 @@ Outcome exec_conc(const ConcCase& c, bool keep_log, Stats* stats) {
     stats->add("switches", sr.switches);
     stats->add("contended_lock_waits", sr.contended_locks);
     if (sr.cond_waits) stats->add("cond_waits", sr.cond_waits);
+    { int64_t secs = 0; for (const auto& ops : c.tasks) for (const Op& o : ops) secs += o.adv; if (secs) stats->add("sim_seconds", secs); }
     if (c.factory_reenters) stats->add("probe.factory_reentered_the_library");
     if (c.sched.exit_at_step >= 0) { stats->add("probe.simulated_exit_while_tasks_run"); if (sr.exit_handlers_run) stats->add("probe.library_static_destructors_run_at_exit", sr.exit_handlers_run); }
     if (library_exit_handlers_registered()) stats->add("probe.library_static_destructors_pending", library_exit_handlers_registered());
